@@ -1153,10 +1153,12 @@ func directiveSecRuleUpdateTargetByID(options *DirectiveOptions) error {
 				return fmt.Errorf("invalid range: %s", idOrRange)
 			}
 
-			for _, rule := range options.WAF.Rules.GetRules() {
-				if rule.ID_ >= start && rule.ID_ <= end {
+			// Update the rules stored in the group, not copies of them.
+			rules := options.WAF.Rules.GetRules()
+			for i := range rules {
+				if rules[i].ID_ >= start && rules[i].ID_ <= end {
 					rp := RuleParser{
-						rule: &rule,
+						rule: &rules[i],
 						options: RuleOptions{
 							WAF: options.WAF,
 						},
@@ -1342,11 +1344,13 @@ func directiveSecRuleUpdateTargetByTag(options *DirectiveOptions) error {
 		return errors.New("syntax error: SecRuleUpdateTargetByTag tag \"VARIABLES\"")
 	}
 
-	for _, rule := range options.WAF.Rules.GetRules() {
+	// Update the rules stored in the group, not copies of them.
+	rules := options.WAF.Rules.GetRules()
+	for i := range rules {
 		inputTag := strings.Trim(tagAndvars[0], "\"")
-		if utils.InSlice(inputTag, rule.Tags_) {
+		if utils.InSlice(inputTag, rules[i].Tags_) {
 			rp := RuleParser{
-				rule: &rule,
+				rule: &rules[i],
 				options: RuleOptions{
 					WAF: options.WAF,
 				},
